@@ -361,10 +361,15 @@
 		(local $free_list i32) ;; *heap_block_t, 空闲链表头
 		(local $b i32) ;; *heap_block_t
 
-		;; 输入参数对齐到8字节
+		;; 输入参数对齐到8字节, 最小8字节(0字节会匹配到 size=0 的 l128 链表头)
 		local.get $size
 		call $heap_alignment8
-		local.set $size
+		local.tee $size
+		i32.eqz
+		if
+			i32.const 8
+			local.set $size
+		end
 
 		;; 根据大小返回对应空闲链表的地址
 		;; 并返回对齐到8字节的大小
